@@ -1409,3 +1409,15 @@ _uri.install(EXTERNALS, _fn)
 
 # ------------------------------------------------------------------ numpy (1-D arrays; added for C13 / C16)
 _np.install(EXTERNALS, _fn)
+
+
+# ------------------------------------------------------------------ builtin map (lazy, as in CPython; added for C13)
+def _map(I, a, k):
+    if len(a) < 2:
+        I.raise_py('TypeError', 'map() must have at least two arguments.')
+    f = a[0]
+    its = [I.get_iter(x) for x in a[1:]]
+    return GenIter(lambda: I.call(f, [it.next_fn() for it in its], {}))
+
+
+M.BUILTINS.setdefault('map', Builtin('map', _map))
